@@ -1,4 +1,5 @@
 import ESV.Cache.ThreadLemmas
+import ESV.Cache.ThreadSeq
 /-
 C12 — Concurrent compilation and decompilation give the sequential results.
 K3: the memo table of graph_utils.py shared by any number of threads (model: ESV/Cache/Threads.lean), every interleaving
@@ -38,6 +39,28 @@ theorem interleave_no_keyerror (rc : C → K → A → R) (progs : Tid → List 
     Ev.keyError t g k ∉ runT rc (startT progs m) sched := by
   intro h
   exact interleave_safe_start rc progs m hd sched _ h
+
+/-- The literal property on the machine: under every schedule in which no step is ill-formed (no thread touches a graph it
+does not own, no `alloc` gets a live id — guaranteed by CPython for real runs), the values a thread's queries return, followed
+by the values it would still return running alone from where it stands, are exactly the values of its program run ALONE on
+the machine without a memo table.  Programs of whole operations, each `Disciplined`. -/
+theorem interleave_sequential (rc : C → K → A → R) (progs : Tid → List (MOp K A C)) (m : Memo K R)
+    (hd : ∀ t, Disciplined (progs t)) (hh : ∀ t, (progs t).all MOp.isHigh = true) (sched : List Tid)
+    (hwf : ∀ t0, Ev.illFormed t0 ∉ runT rc (startT progs m) sched) (t : Tid) :
+    valuesOf t (runT rc (startT progs m) sched) ++ todo rc (finalT rc (startT progs m) sched) t =
+      idealVals rc (fun _ => none) (progs t) := by
+  rw [← todo_start rc progs m t]
+  exact seq_gen rc sched (startT progs m) _ (tinv_start rc _ (fun _ => rfl) hd) (fun t' => hh t') hwf t
+
+/-- … and for a thread that has finished: its results are exactly its results when run alone -/
+theorem interleave_sequential_finished (rc : C → K → A → R) (progs : Tid → List (MOp K A C)) (m : Memo K R)
+    (hd : ∀ t, Disciplined (progs t)) (hh : ∀ t, (progs t).all MOp.isHigh = true) (sched : List Tid)
+    (hwf : ∀ t0, Ev.illFormed t0 ∉ runT rc (startT progs m) sched) (t : Tid)
+    (h1 : ((finalT rc (startT progs m) sched).th t).phase = .idle) (h2 : ((finalT rc (startT progs m) sched).th t).prog = []) :
+    valuesOf t (runT rc (startT progs m) sched) = idealVals rc (fun _ => none) (progs t) := by
+  have := interleave_sequential rc progs m hd hh sched hwf t
+  rw [todo_finished rc _ t h1 h2, List.append_nil] at this
+  exact this
 
 end
 
